@@ -383,6 +383,8 @@ fn run_poll_or_flush<TC: akd::configuration::Configuration>(base: &[DbRecord], b
                     dbp.pause().await;
                     let s0 = sig.load(Ordering::SeqCst);
                     out.push((s0, do_read::<TC>(&r, &op, &pk).await));
+                    // not a scheduling point: marks in the trace where the request returned
+                    dbp.ctl.trace.lock().unwrap().push((i + 1, "done".to_string(), String::new()));
                 }
                 out
             })));
@@ -636,10 +638,11 @@ pub fn step(ex: &mut Exec, st: &mut L1State, op: &str, toks: &[&str]) -> Option<
             let roots = st.fx_roots.clone();
             let max_runs = if st.thorough { 20_000 } else if bound >= 3 { 2_500 } else if flusher { 1_200 } else { 400 };
             let daemon = reads.len() + 1;
-            let (runs, violations, signalled) = with_cfg!(cfg.as_str(), TC => {
+            let (runs, violations, signalled, traces) = with_cfg!(cfg.as_str(), TC => {
                 let mut stack: Vec<Vec<usize>> = vec![vec![]];
                 let mut seen = std::collections::HashSet::new();
                 let (mut runs, mut violations, mut signalled) = (0usize, 0usize, 0usize);
+                let mut traces: Vec<String> = vec![];
                 while let Some(prefs) = stack.pop() {
                     if runs >= max_runs {
                         break;
@@ -668,6 +671,13 @@ pub fn step(ex: &mut Exec, st: &mut L1State, op: &str, toks: &[&str]) -> Option<
                             }
                         }
                     }
+                    // the run, for validation by the model `Poll.lean` (every request of the scenario is guarded)
+                    if !flusher && traces.len() < 300 && (runs % 7 == 1 || runs < 40) {
+                        let ev: Vec<String> = r.trace.iter().map(|(t, k, d)| format!("{t}:{k}:{d}")).collect();
+                        let ans: Vec<String> = r.reads.iter().map(|v| v.iter().map(|(_, x)| match x { Ok((e, _, _)) => e.to_string(), Err(_) => "x".to_string() }).collect::<Vec<_>>().join(",")).collect();
+                        let after = match r.after.first() { Some((_, Ok((e, _, _)))) => e.to_string(), _ => "-".to_string() };
+                        traces.push(format!("poll.validate {} {} {} {} {} -> ok {} {}", if rcache.starts_with("lat:") { 1 } else { 0 }, reads.len(), base_epoch, ev.join(","), ans.join(";"), r.signals.len(), after));
+                    }
                     for (tag, what) in judge_poll(&r, &roots, base_epoch, &reads, daemon) {
                         violations += 1;
                         if violations <= 3 {
@@ -675,8 +685,9 @@ pub fn step(ex: &mut Exec, st: &mut L1State, op: &str, toks: &[&str]) -> Option<
                         }
                     }
                 }
-                (runs, violations, signalled)
+                (runs, violations, signalled, traces)
             });
+            st.sched_traces.extend(traces);
             ex.stats.bump(op, &format!("readers{}-bound{}-runs{}-signalled{}", reads.len(), bound, (runs / 100) * 100, if signalled * 2 > runs { "most" } else if signalled > 0 { "some" } else { "none" }));
             Some(format!("violations={violations}"))
         }
